@@ -56,7 +56,8 @@ def crash_states(spec: dict[str, Any], events: bool = False, schedule: Schedule 
 
 
 def recover_from(spec: dict[str, Any], cs: dict[str, Any], after_execute: bool = False, recoveries: int = 1,
-                 events: bool = False, snapshot_recovery: bool = False, max_steps: int = 3000) -> dict[str, Any]:
+                 events: bool = False, snapshot_recovery: bool = False, max_steps: int = 3000,
+                 schedule: Schedule | None = None, after_recovery: Any = None) -> dict[str, Any]:
     """Restart from crash state ``cs`` and run to quiescence. Returns outcome, audit, ledger, recovery results."""
     ref = cs["ref"]
     cut = cs["ledger_len_next"] if after_execute else cs["ledger_len"]
@@ -64,7 +65,7 @@ def recover_from(spec: dict[str, Any], cs: dict[str, Any], after_execute: bool =
     tasks.LEDGER.extend(dict(e) for e in ref["ledger"][:cut])
     w = World(restore=cs["blob"], events=events)
     w.lapse_all_locks()
-    run = Run(spec, Schedule(), world=w, max_steps=max_steps)
+    run = Run(spec, schedule or Schedule(), world=w, max_steps=max_steps)
     run.steps = cs["step"]
     inner: list[dict[str, Any]] = []
     if snapshot_recovery:
@@ -88,6 +89,8 @@ def recover_from(spec: dict[str, Any], cs: dict[str, Any], after_execute: bool =
         w.set_ctx(run.steps, "Recovery")
         for _ in range(recoveries):
             results.extend(w.processor.run_recovery())
+        if after_recovery is not None:
+            after_recovery(run)  # e.g. an operator / external sender acting on the restarted system before anything is delivered
         run.drain()
     finally:
         w.conn.v_on_commit = None
